@@ -5,6 +5,7 @@
 package main
 
 import (
+	"bytes"
 	"context"
 	"fmt"
 	"net"
@@ -64,6 +65,17 @@ func cutScripts(svc string) []hx.B {
 				out = append(out, hx.B(append([]byte{}, body...)))
 			}
 		}
+	}
+	// input that fills a fixed-size internal buffer / exceeds a size cap without completing a token
+	switch svc {
+	case "redis": // bufio.Scanner gives up on a token longer than 64 KiB
+		out = append(out, hx.B(bytes.Repeat([]byte("a"), 70000)), hx.B(cat([]byte("*1\r\n$70000\r\n"), bytes.Repeat([]byte("b"), 70000))))
+	case "ldap": // announced lengths at and above the 1 MiB cap, nothing behind them
+		out = append(out, hx.B([]byte{0x30, 0x84, 0x00, 0x20, 0x00, 0x00}), hx.B([]byte{0x30, 0x83, 0x10, 0x00, 0x00, 0x02, 0x01}), hx.B([]byte{0x30, 0x85, 1, 2, 3, 4, 5}))
+	case "memcached":
+		out = append(out, hx.B(bytes.Repeat([]byte("k"), 9000)))
+	case "snmp":
+		out = append(out, hx.B(cat([]byte{0x30, 0x82, 0xff, 0xff}, bytes.Repeat([]byte{0}, 100))))
 	}
 	return out
 }
@@ -138,7 +150,7 @@ func runCutConn(svc services.Servicer, sp Spec, idx int) (ob ConnObs, gone bool)
 		}()
 		svc.Handle(context.Background(), conn)
 	}()
-	ob.Outcome, ob.Panic = awaitEnd(done, wait+20*deadline)
+	ob.Outcome, ob.Panic = awaitEnd(done, 2*(wait+20*deadline))
 	if len(ob.Panic) > 120 {
 		ob.Panic = ob.Panic[:120]
 	}
